@@ -457,6 +457,7 @@ func checkFaultWire(s *vsched.Sched, w *World, p Param) {
 func init() {
 	Register(&Scenario{
 		Name:        "kinds",
+		OptsToo:     true,
 		LazyDescToo: true,
 		Property:    "C04",
 		Cfg:         vsched.Config{Horizon: 5 * time.Second},
